@@ -116,14 +116,14 @@ fn sort_text(w: u32, as_bool: bool) -> String {
 /// a value text in one of the forms solvers print + its denotation
 fn value_text(rng: &mut Rng) -> (String, Val) {
     if rng.chance(1, 3) {
-        let w = *rng.pick(&[1u32, 1, 2, 3, 4, 8, 16, 31, 32, 33, 64, 65, 128, 129]);
+        let w = *rng.pick(&[1u32, 1, 2, 3, 4, 8, 16, 31, 32, 33, 64, 65, 128, 129, 132, 136, 192, 256, 260, 512, 516]);
         let b = Bv::new(w, lit_shape(rng, w));
         let as_bool = w == 1 && rng.flip();
         return (spell_scalar(rng, &b, as_bool), Val::B(b));
     }
     // arrays: Bool-indexed / Bool-valued variants when the width is 1
     let iw = *rng.pick(&[1u32, 1, 2, 3, 4, 8, 32]);
-    let dw = *rng.pick(&[1u32, 1, 2, 4, 8, 33, 64]);
+    let dw = *rng.pick(&[1u32, 1, 2, 4, 8, 33, 64, 128, 132, 200, 256]);
     let ibool = iw == 1 && rng.chance(3, 4);
     let dbool = dw == 1 && rng.chance(3, 4);
     let default = Bv::new(dw, lit_shape(rng, dw));
@@ -558,7 +558,7 @@ impl Check for C14 {
         "commands_read_back"
     }
     fn rule(&self) -> String {
-        "mode roundtrip: G1 expressions (as in C05, incl. 1-bit/Bool mixtures, arrays, quoted names); every command the writer emits for them (declare-const per symbol, get-value, define-fun, assert, check-sat-assuming with 1 and 2 terms, plus set-logic/set-option/set-info/push/pop/check-sat/get-unsat-assumptions/exit) is read back with parse_command, the bare term with parse_expr, and the whole script with read_command; kinds, symbols and operands must agree, expressions up to equivalence under the reference evaluator (all assignments <= 10 symbol bits, else 8). mode values: G5 model-value texts in solver spellings (#b/#x, true/false, store chains over (as const ..), let-bound sub-terms a!k, Bool-indexed and Bool-valued arrays, line breaks) with their denotation; parse_expr must give exactly that value; 6 truncated/unbalanced variants each (proper prefixes, one parenthesis deleted or inserted) must give an error or, when the edit leaves a well-formed text, not a wrong value - and never panic. mode lets: G5b terms over declared constants a, b (bit-vectors of width 2/3/8/33) and m (array) with nested let scopes: single and parallel binding lists, bindings of arrays and bit-vectors, binder names that shadow outer lets or the declared constants a/b/m (also with another sort), quoted binder names, names used again after their scope has closed (then denoting the declared constant, or nothing at all); the R6 front end decides well-formedness and gives the value under 4 random models: a well-formed term must be read as an expression with that value, an ill-scoped one must be an error, never a panic. distinct_nontrivial = distinct value and let texts read correctly.".into()
+        "mode roundtrip: G1 expressions (as in C05, incl. 1-bit/Bool mixtures, arrays, quoted names); every command the writer emits for them (declare-const per symbol, get-value, define-fun, assert, check-sat-assuming with 1 and 2 terms, plus set-logic/set-option/set-info/push/pop/check-sat/get-unsat-assumptions/exit) is read back with parse_command, the bare term with parse_expr, and the whole script with read_command; kinds, symbols and operands must agree, expressions up to equivalence under the reference evaluator (all assignments <= 10 symbol bits, else 8). mode values: G5 model-value texts (widths 1..516 incl. hex spellings of 33 and more digits) in solver spellings (#b/#x, true/false, store chains over (as const ..), let-bound sub-terms a!k, Bool-indexed and Bool-valued arrays, line breaks) with their denotation; parse_expr must give exactly that value; 6 truncated/unbalanced variants each (proper prefixes, one parenthesis deleted or inserted) must give an error or, when the edit leaves a well-formed text, not a wrong value - and never panic. mode lets: G5b terms over declared constants a, b (bit-vectors of width 2/3/8/33) and m (array) with nested let scopes: single and parallel binding lists, bindings of arrays and bit-vectors, binder names that shadow outer lets or the declared constants a/b/m (also with another sort), quoted binder names, names used again after their scope has closed (then denoting the declared constant, or nothing at all); the R6 front end decides well-formedness and gives the value under 4 random models: a well-formed term must be read as an expression with that value, an ill-scoped one must be an error, never a panic. distinct_nontrivial = distinct value and let texts read correctly.".into()
     }
     fn assumptions(&self) -> Vec<String> {
         vec!["the get-value response reader is exercised through parse_expr here (same term parser) and through SolverContext::get_value against the reference solver in C02/C03".into()]
